@@ -384,17 +384,25 @@ class SymFS(object):
 
     def __init__(self, I, root, entries, bits):
         self.root = root
-        self.entries = {}         # normalised path -> {"dir": bool, "content": str|None, "exists": term}
+        self.entries = {}         # normalised path -> {"dir": bool, "content": str|None, "exists": term, "rel": relative path}
         self.opens = []
         for rel, content in entries.items():
-            p = os.path.normpath(os.path.join(root, rel)) if rel else root
-            self.entries[p] = {"dir": content is None, "content": content, "exists": bits[rel]}
+            p = os.path.normpath(os.path.join(root, rel)) if rel else os.path.normpath(root)
+            self.entries[p] = {"dir": content is None, "content": content, "exists": bits[rel], "rel": rel}
+
+    def term(self, e):
+        return e["exists"]
+
+    def new_epoch(self, bits):
+        """the stored files changed: from now on existence is given by another set of bits"""
+        for e in self.entries.values():
+            e["exists"] = bits[e["rel"]]
 
     def psx_symbolic(self):
         return False
 
     def covers(self, path):
-        return isinstance(path, str) and (path == self.root or path.startswith(self.root + "/"))
+        return isinstance(path, str) and (path == self.root or path.startswith(self.root + "/") or path.rstrip("/") == self.root)
 
     def exists_term(self, path):
         p = os.path.normpath(path)
@@ -444,6 +452,29 @@ class SymFS(object):
             I.raise_(IsADirectoryError(21, "Is a directory", path))
         self.opens.append(p)
         return io.StringIO(e["content"])
+
+
+# ---- remote locations: urlopen over the same symbolic file system (root given as a URL)
+import urllib.request as _urlreq
+import urllib.error as _urlerr
+
+
+@func_model(_urlreq.urlopen)
+def _urlopen_model(I, args, kwargs):
+    """contract: a GET of a URL below the symbolic root answers 200 with the file's content (a listing for a directory) when the
+    path exists and HTTP 404 otherwise; the returned object supports read()/close() and iteration like a text stream"""
+    url = args[0] if args else kwargs.get("url")
+    if contains_sym(url):
+        I.unsupported("urlopen with a symbolic URL")
+    fs = I.options.get("fs")
+    if fs is None or not isinstance(url, str) or not fs.covers(url):
+        return NotImplemented
+    p = os.path.normpath(url)
+    e = fs.entries.get(p)
+    if e is None or not I.decide(fs.term(e)):
+        I.raise_(_urlerr.HTTPError(url, 404, "File not found", None, None))
+    fs.opens.append(p)
+    return io.StringIO("<directory listing>" if e["dir"] else e["content"])
 
 
 def _fs_for(I, path):
